@@ -320,6 +320,23 @@ def check_properties_file(ctx, vfile, cone_files, timeout=1800):
             "log": out, "names": names}
 
 
+def coqchk_lib(ctx, lib, modules, timeout=2400):
+    """Thorough tier: re-checks the compiled library with Coq's independent checker and returns the
+    axioms it reports (`coqchk -o`).  `modules` are the top modules of the cone, e.g. ["Sem"]."""
+    t = time.time()
+    q = []
+    for d in _dep_order(lib):
+        q += ["-Q", os.path.join(COQ, d), d]
+    rc, out = run(["coqchk", "-o", "-silent"] + q + ["%s.%s" % (lib, m) for m in modules], cwd=COQ,
+                  timeout=timeout)
+    m = re.search(r"\* Axioms:\s*(.*?)\n\s*\n\* Constants", out, re.S)
+    axioms = m.group(1).strip() if m else "?"
+    ok = rc == 0 and axioms == "<none>" and "type-in-type: <none>" in out and "positivity is assumed: <none>" in out \
+        and "unsafe (co)fixpoints: <none>" in out
+    ctx.log("coqchk -o %s: rc=%d axioms=%s (%.0fs)" % (lib, rc, axioms[:200], time.time() - t))
+    return {"ok": ok, "rc": rc, "axioms": axioms, "tail": out[-1500:]}
+
+
 def run_case_shards(ctx, case_dir, pattern="*.v", timeout=1500, extra_q=()):
     """Evaluates every shard written by a harness (each ends in `Print bad.`) inside Coq, in
     parallel. Returns list of (shard, ok, output)."""
